@@ -221,7 +221,7 @@ func ruleAllArchivesValidated(w *World, r *Report, rule string) {
 		r.Undecided(rule, "validate", "-", "not found")
 		return
 	}
-	checkFailConds(w, r, rule, val, []wantCond{{"element", "(whispertool.ArchiveInfo).validate(CUR) != nil", "", "every archive — including the last and only one — is validated on its own"}})
+	checkFailConds(w, r, rule, val, []wantCond{{"element", "nil != whispertool.ArchiveInfo.validate(CUR)", "", "every archive — including the last and only one — is validated on its own"}})
 	// the loop must range over the whole list
 	ok := false
 	eachInstr(val, func(in ssa.Instruction) {
@@ -253,7 +253,7 @@ func ruleTruncateEpoch(w *World, r *Report, rule string) {
 	for _, rt := range returnsOf(f) {
 		e := newExprCtx(w).expr(rt.Results[0])
 		rs = append(rs, e)
-		if e == "(whispertool.Timestamp).Add(p0, -(p0 %:int64 p1))" {
+		if e == "whispertool.Timestamp.Add(p0, -(p0 %:int64 p1))" {
 			ok = true
 		}
 	}
@@ -308,7 +308,7 @@ func ruleFetchRawReturnsWhole(w *World, r *Report, rule string) {
 			mk = ms
 		}
 	})
-	ok := mk != nil && regexp.MustCompile(`^\(\(whispertool\.Timestamp\)\.Sub\(p3, p2\) /:int32 .*secondsPerPoint\)$`).MatchString(newExprCtx(w).expr(mk.Len))
+	ok := mk != nil && regexp.MustCompile(`^\(whispertool\.Timestamp\.Sub\(p3, p2\) /:int32 .*secondsPerPoint\)$`).MatchString(newExprCtx(w).expr(mk.Len))
 	bad := ""
 	for _, rt := range returnsOf(f) {
 		if isFailureReturn(rt) {
